@@ -30,6 +30,36 @@ def inflStoredGo (unknown : Bool) : Nat → Bytes → Nat → Bool
 def inflStored (unknown : Bool) (comp : Bytes) (outLen : Nat) : Bool :=
   if outLen = 0 then unknown else inflStoredGo unknown (comp.length + 1) comp outLen
 
+/-- Driver-side predicate for the recorded finding `dat.block-table-amplification` (not part of the
+proved model): the total size a *standard* entry declares for its blocks, following the block table
+as the reader does.  Block tables may point several entries at the same bytes, so a small file can
+declare (and the reader then produces) far more output than it has input. -/
+def declaredBlock (w : Bytes) (pos : Nat) : Nat :=
+  match (P.runAt (do
+      let _ ← P.u32le; P.skip 4
+      let x ← C18Hdr.u32leNat; let y ← C18Hdr.u32leNat
+      pure (x, y)) w pos).out with
+  | .ok ((x, y), _) =>
+    if x < 32000 ∨ 2147483648 ≤ x then (if y ≤ C18Dat.maxBlock then y else 0)
+    else (if y < 2147483648 then y else 0)
+  | _ => 0
+
+def declaredStandardTotal (w : Bytes) (offset : Nat) : Nat :=
+  match (P.runAt C18Dat.fileInfo w offset).out with
+  | .ok (fi, pos) =>
+    match fi.info with
+    | .standard nb =>
+      match (P.runAt (P.count nb C18Dat.blockEntry) w pos).out with
+      | .ok (blocks, _) =>
+        blocks.foldl (fun acc o => acc + (if o < 2147483648 then declaredBlock w (offset + fi.size + o) else 0)) 0
+      | _ => 0
+    | _ => 0
+  | _ => 0
+
+/-- the heap holds the output vector (grown by doubling) plus one block -/
+def amplifies (w : Bytes) (offset : Nat) : Bool :=
+  decide (declaredStandardTotal w offset > 8 * w.length + 4194304)
+
 /-- `dat <hex> <offset>`: the class when both readings of the unknown inflate results agree,
 otherwise "any outcome that is not a crash" -/
 def dat (h off : String) : String :=
@@ -38,8 +68,9 @@ def dat (h off : String) : String :=
     if o > 18446744073709551615 then bad else
     let r1 := (C18Dat.readFromOffset (inflStored true) w o).cls
     let r2 := (C18Dat.readFromOffset (inflStored false) w o).cls
-    if r1 == r2 then answer ("dat " ++ h ++ " " ++ off ++ " cls") r1
-    else answer ("dat " ++ h ++ " " ++ off ++ " any") "ok"
+    let tags := if amplifies w o then ["kf:dat.block-table-amplification"] else []
+    if r1 == r2 then answer ("dat " ++ h ++ " " ++ off ++ " cls") r1 tags
+    else answer ("dat " ++ h ++ " " ++ off ++ " any") "ok" tags
   | _, _ => bad
 
 /-- a synthetic installation: `<hexpath>=<hexcontent>` / `<hexpath>=/`, comma separated, or `-` -/
